@@ -226,3 +226,34 @@ func checkScan(src string, L int) {
 	}
 	vf.Assert("tokens-carry-their-own-line-and-column", ok)
 }
+
+// VF_C12_LongOffender: the offending token itself is long (a string of n characters where a separator was
+// expected): the diagnostic abbreviates it, and stays a diagnostic whatever the length.
+func VF_C12_LongOffender(n, kind int) {
+	body := make([]byte, n)
+	for i := range body {
+		body[i] = 'a' + byte(i%26)
+	}
+	if n > 0 {
+		b := vf.Byte("b")
+		vf.Assume(vf.And(b >= ' ', b <= '~'))
+		vf.Assume(vf.And(b != '"', b != '\\'))
+		body[n/2] = b
+	}
+	tok := "\"" + string(body) + "\""
+	if kind == 1 { // escapes make the quoted form much longer than the raw text
+		tok = "\""
+		for i := 0; i < n; i++ {
+			tok += "\\n"
+		}
+		tok += "\""
+	}
+	if kind == 2 { // a run of digits: an integer far out of range where a separator was expected
+		tok = ""
+		for i := 0; i < n+1; i++ {
+			tok += string(rune('1' + i%9))
+		}
+	}
+	totalParse("[1 "+tok+"](List)\n", 1)
+	vf.Reach("end")
+}
